@@ -23,7 +23,7 @@ import (
 )
 
 // structs for which a Lean structure is generated, in dependency order
-var genStructs = []string{"pathExpression", "Route", "curlyRoute", "WebService", "routeCandidate", "dispatcherCandidate", "sortableRouteCandidates", "sortableDispatcherCandidates", "Request", "Container", "CrossOriginResourceSharing", "mime"}
+var genStructs = []string{"pathExpression", "Route", "curlyRoute", "WebService", "routeCandidate", "dispatcherCandidate", "sortableRouteCandidates", "sortableDispatcherCandidates", "Request", "Container", "CrossOriginResourceSharing", "mime", "RouteBuilder"}
 
 // effect types: what a function does to a `*Response` / a `*FilterChain` is a log the function returns
 //
@@ -47,6 +47,8 @@ var mutates = map[string][]string{
 	"Container.OPTIONSFilter":                                {"resp", "chain"},
 	"Container.addHandler":                                   {"serveMux"},
 	"WebService.RemoveRoute":                                 {"w"},
+	"Route.postBuild":                                        {"r"},
+	"RouteBuilder.copyDefaults":                              {"b"},
 }
 var isGenStruct = map[string]bool{}
 
@@ -90,8 +92,39 @@ func resolve(e ast.Expr) ast.Expr {
 	return e
 }
 
+// opaque: values the translated functions only copy, test for nil or hand to an uninterpreted function
+// (functions with other signatures, interface{}, other maps, pointers to structs that are not generated)
+func opaqueType(e ast.Expr) bool {
+	switch x := resolve(e).(type) {
+	case *ast.FuncType, *ast.InterfaceType:
+		return true
+	case *ast.MapType:
+		return true
+	case *ast.StarExpr:
+		if id, ok := resolve(x.X).(*ast.Ident); ok {
+			if _, isStruct := structFields[id.Name]; isStruct && !isGenStruct[id.Name] {
+				return true
+			}
+			if id.Name == "bool" || id.Name == "int" || id.Name == "string" {
+				return false
+			}
+		}
+	}
+	return false
+}
+
 // leanTypeExt: types beyond the basic subset; "" when outside
 func leanTypeExt(e ast.Expr) string {
+	if lt := leanTypeExt0(e); lt != "" {
+		return lt
+	}
+	if opaqueType(e) {
+		return "Option Opaque"
+	}
+	return ""
+}
+
+func leanTypeExt0(e ast.Expr) string {
 	e = resolve(e)
 	switch x := e.(type) {
 	case *ast.Ident:
@@ -190,7 +223,7 @@ func fieldLeanType(st, f string) string {
 	if lt == "" {
 		return ""
 	}
-	if _, isFn := resolve(ft).(*ast.FuncType); isFn {
+	if _, isFn := resolve(ft).(*ast.FuncType); isFn && lt != "Option Opaque" {
 		return "Option (" + lt + ")"
 	}
 	return lt
@@ -198,7 +231,7 @@ func fieldLeanType(st, f string) string {
 
 func isFuncField(st, f string) bool {
 	_, isFn := resolve(structFields[st][f]).(*ast.FuncType)
-	return isFn
+	return isFn && leanType(structFields[st][f]) != "Option Opaque"
 }
 
 // usedFields: the fields some translated function reads or sets; only these are emitted, so that a new
